@@ -105,6 +105,16 @@ def gen_case(rng, cid, store):
         for t in range(rng.randrange(2, 4)):
             threads.append([manifest_put(repo, rng.choice([dg("sha256", a), "same"]), a, ctype=MT_OCI_M), referrers(repo, dg("sha256", subj))])
         shape = ()
+    if store == "dir" and shape and rng.random() < 0.2:
+        # a tag delete next to blob uploads to the same repository, nothing else writing its index; the collection below re-reads it
+        n[0] += 1
+        m = mk_image(n[0], layers=(layer,))
+        prefix.append(manifest_put(repo, "gone", m, ctype=MT_OCI_M))
+        pool.append(m)
+        d1, d2 = b"late-blob-%d" % n[0], b"late-blob2-%d" % n[0]
+        threads.append([manifest_delete(repo, "gone"), upload_post(repo, digest=dg("sha256", d1), body=d1)])
+        threads.append([upload_post(repo, digest=dg("sha256", d2), body=d2), tag_list(repo)])
+        shape = ()
     for tlen in shape:
         th = []
         for _ in range(tlen):
@@ -140,7 +150,7 @@ def gen_case(rng, cid, store):
         threads.append(th)
     par = dict(kind="par", impl=dict(op="par", par=[[s["impl"] for s in th] for th in threads]), model="(skip)", threads=threads)
     probes = [tag_list(repo), tag_list(other), referrers(repo, dg("sha256", subj))]
-    for t in TAGS + ["base"]:
+    for t in TAGS + ["base", "gone"]:
         probes.append(manifest_get(repo, t))
         probes.append(manifest_get(other, t))
     seen = set()
@@ -149,7 +159,10 @@ def gen_case(rng, cid, store):
         if d not in seen:
             seen.add(d)
             probes.append(manifest_get(repo, d))
-    steps = prefix + [par] + probes
+    # a collection of both repositories when everything is done (young content: it removes nothing, but re-reads the index), then
+    # the same reads again
+    again = [dict(kind="gc", repo=r_, impl=dict(op="gc", repo=r_), model=sl("gc", sx(r_))) for r_ in (repo, other)] + [dict(x) for x in probes]
+    steps = prefix + [par] + probes + again
     contents = {s["body"] for th in threads for s in th if s.get("body")} | {s["body"] for s in prefix if s.get("body")}
     contents |= {cfg, layer, subj}
     return dict(id=cid, conf=conf, steps=steps, contents=sorted(contents), npre=len(prefix), seed=seed, repo=repo, subject=dg("sha256", subj),
@@ -616,6 +629,7 @@ def hooked_pairs_check(ctx):
     rng = ctx.rng
     binp = api_binary(ctx)
     cases, meta = [], {}
+    r1k, r2s = {}, {}
     rounds = 1 if ctx.tier == "quick" else 5
     for rnd in range(rounds):
         for store in ("mem", "dir"):
@@ -636,7 +650,19 @@ def hooked_pairs_check(ctx):
                      ("delete-tag/push-tag", manifest_delete(repo, "other"), manifest_put(repo, "moved", other, ctype=MT_OCI_M)),
                      ("push-stored-bytes-under-a-new-tag/delete-by-digest", manifest_put(repo, "moved", base, ctype=MT_OCI_M), manifest_delete(repo, dg("sha256", base))),
                      ("delete-by-digest/push-stored-bytes-under-a-new-tag", manifest_delete(repo, dg("sha256", other)), manifest_put(repo, "moved", other, ctype=MT_OCI_M))]
-            for name, r1, r2 in pairs:
+            a2 = manifest_put(repo, dg("sha256", arts[2]), arts[2], ctype=MT_OCI_M)
+            pairs = [(nm, [], x, y) for nm, x, y in pairs] + [
+                # a read standing still while an update runs to its end: it answers what was there before or after, nothing else
+                ("list-referrers/delete-sibling-artifact", [a2], referrers(repo, dg("sha256", base), None), manifest_delete(repo, dg("sha256", arts[0]))),
+                ("list-referrers/push-artifact", [a2], referrers(repo, dg("sha256", base), None), manifest_put(repo, dg("sha256", arts[1]), arts[1], ctype=MT_OCI_M)),
+                ("pull-by-tag/move-tag", [], manifest_get(repo, "other"), manifest_put(repo, "other", base, ctype=MT_OCI_M)),
+                ("pull-by-tag/delete-tag", [], manifest_get(repo, "other"), manifest_delete(repo, "other")),
+                ("pull-by-digest/delete-by-digest", [], manifest_get(repo, dg("sha256", other)), manifest_delete(repo, dg("sha256", other))),
+                ("list-tags/delete-tag", [], tag_list(repo), manifest_delete(repo, "other"))]
+            pre0 = pre
+            for name, morepre, r1, r2 in pairs:
+                pre = pre0 + morepre
+                r1, r2 = dict(r1, phase="post", role=1), dict(r2, phase="post", role=2)
                 def mk(steps):
                     steps = [dict(x) for x in steps]
                     for st in steps:
@@ -650,10 +676,27 @@ def hooked_pairs_check(ctx):
                     mids = [dict(kind="async", impl=dict(op="async", par=[[r2["impl"]]]), model="(skip)"), special("sleep", secs=0.1)]
                     hk = dict(r1, kind="hooked", model="(skip)", impl=dict(r1["impl"], op="hooked", n=at, mid=[x["impl"] for x in mids]))
                     cid = mk(pre + [hk, dict(kind="join", impl=dict(op="join", secs=5.0), model="(skip)")] + [dict(x, phase="post") for x in reads])
-                    meta[cid] = (store, name, at, ref12, ref21, reads)
+                    meta[cid] = (store, name, at, ref12, ref21, [r1, r2] + reads)
+                    r1k[cid], r2s[cid] = r1["kind"], r2
     iouts = run_api(ctx, binp, cases, name="pairs")
     byid = {c["id"]: c for c in cases}
-    post = lambda cid: [_ans(st, r) for st, r in zip(byid[cid]["steps"], iouts[cid]["steps"]) if st.get("phase") == "post"]
+    def post(cid):
+        """the answers to the two requests, then to the reads after them"""
+        out = {}
+        rest = []
+        for st, r in zip(byid[cid]["steps"], iouts[cid]["steps"]):
+            if st.get("phase") != "post":
+                if st["kind"] == "join":
+                    second = ((r.get("par") or [[]])[0] or [{}])[0]
+                    out[2] = _ans(r2s[cid], second)
+                continue
+            if st.get("role") == 1:
+                out[1] = _ans(dict(st, kind=r1k[cid]) if cid in r1k else st, r)
+            elif st.get("role") == 2:
+                out[2] = _ans(st, r)
+            else:
+                rest.append(_ans(st, r))
+        return [out.get(1), out.get(2)] + rest
     n = nbad = 0
     for cid, (store, name, at, ref12, ref21, reads) in sorted(meta.items()):
         io = iouts[cid]["steps"]
